@@ -80,7 +80,7 @@ theorem C18_latest_claim (pre post : List (Env × Msg)) (e : Env) (m : Msg) (n :
 example : ∃ (post : List (Env × Msg)) (m : Msg), m.pgn = pgnClaim ∧ m.source < MaxBusDevices ∧ claimName m = 0xA1 ∧
     post ≠ [] ∧ ∀ em ∈ post, em.2.pgn = pgnClaim → em.2.source < MaxBusDevices →
       claimName em.2 ≠ 0xA1 ∧ em.2.source ≠ m.source :=
-  ⟨[(⟨0, true, 0, fun _ => 0⟩, ⟨pgnClaim, 9, [0xB2, 0, 0, 0, 0, 0, 0, 0]⟩)], ⟨pgnClaim, 5, [0xA1, 0, 0, 0, 0, 0, 0, 0]⟩,
+  ⟨[(⟨0, true, fun _ => 0⟩, ⟨pgnClaim, 9, [0xB2, 0, 0, 0, 0, 0, 0, 0]⟩)], ⟨pgnClaim, 5, [0xA1, 0, 0, 0, 0, 0, 0, 0]⟩,
     rfl, by decide, by decide, by simp, by
       intro em hem _ _
       simp only [List.mem_singleton] at hem
@@ -155,7 +155,7 @@ example : ∃ (mc mp : Msg), mc.pgn = pgnClaim ∧ mc.source < MaxBusDevices ∧
 entry is parked on the free slot 0); somebody sends product information (code 111) from address 0; A1 claims
 address 0 - its latest, undisplaced claim; A1 sends its product information (code 222) -/
 def parkedHistory : List (Env × Msg) :=
-  let e : Env := ⟨5000, true, 0, fun _ => 0⟩
+  let e : Env := ⟨5000, true, fun _ => 0⟩
   [(e, ⟨pgnClaim, 5, [0xA1, 0, 0, 0, 0, 0, 0, 0]⟩), (e, ⟨pgnClaim, 5, [0xB2, 0, 0, 0, 0, 0, 0, 0]⟩),
    (e, ⟨pgnProd, 0, [111, 0, 111, 0]⟩), (e, ⟨pgnClaim, 0, [0xA1, 0, 0, 0, 0, 0, 0, 0]⟩),
    (e, ⟨pgnProd, 0, [222, 0, 222, 0]⟩)]
@@ -165,7 +165,7 @@ under source 0 carries NAME A1 (claim handling is right), the first 126996 after
 to product code 222, but the list reports product code 111. -/
 theorem C18_parked_entry_witness :
     ∃ s id d p, run State.init parkedHistory = .ok s ∧ findBySource s 0 = some id ∧ s.heap id = some d ∧
-      d.name = 0xA1 ∧ parseProd ⟨5000, true, 0, fun _ => 0⟩ ⟨pgnProd, 0, [222, 0, 222, 0]⟩ = .ok p ∧
+      d.name = 0xA1 ∧ parseProd ⟨5000, true, fun _ => 0⟩ ⟨pgnProd, 0, [222, 0, 222, 0]⟩ = .ok p ∧
       p.productCode = 222 ∧ d.prod.productCode = 111 :=
   ⟨_, _, _, _, rfl, rfl, rfl, rfl, rfl, rfl, rfl⟩
 
@@ -216,12 +216,12 @@ theorem C18_information_conf (pre post : List (Env × Msg)) (e1 : Env) (mc : Msg
 
 /-- the hypotheses of `C18_information_pgns` / `C18_information_conf` are satisfiable: after the claim of NAME A1
     for source 5 the list shows A1 under 5; a transmit list; a 126998 with the fields "a", "b", "M" -/
-example : Shows [(⟨0, true, 0, fun _ => 0⟩, ⟨pgnClaim, 5, [0xA1, 0, 0, 0, 0, 0, 0, 0]⟩)] 5 0xA1 ∧
+example : Shows [(⟨0, true, fun _ => 0⟩, ⟨pgnClaim, 5, [0xA1, 0, 0, 0, 0, 0, 0, 0]⟩)] 5 0xA1 ∧
     listType ⟨pgnList, 5, [0, 0x10, 0xF0, 0x01]⟩ = 0 ∧ pgnListOf ⟨pgnList, 5, [0, 0x10, 0xF0, 0x01]⟩ = [126992] ∧
     (parseConfSizes (Msg.text ⟨pgnConf, 5, [3, 1, 0x61, 3, 1, 0x62, 3, 1, 0x4D]⟩)).ok = true ∧
     Quiet [] 5 0xA1 :=
   ⟨by intro s0 hs0
-      have : run State.init [((⟨0, true, 0, fun _ => 0⟩ : Env), (⟨pgnClaim, 5, [0xA1, 0, 0, 0, 0, 0, 0, 0]⟩ : Msg))] =
+      have : run State.init [((⟨0, true, fun _ => 0⟩ : Env), (⟨pgnClaim, 5, [0xA1, 0, 0, 0, 0, 0, 0, 0]⟩ : Msg))] =
           .ok s0 := hs0
       cases hs0
       exact ⟨_, _, rfl, rfl, rfl⟩,
